@@ -85,21 +85,42 @@ class DimCheck:
                 return self.default
             raise DimError(f"no degree for variable {name}")
         if kind in (z3.Z3_OP_ADD, z3.Z3_OP_SUB):
-            return self._unify([self.deg(c) for c in ch], t, "+/-")
+            ds = [self.deg(c) for c in ch]
+            if any(isinstance(d, tuple) for d in ds):
+                # additive (logarithmic) degrees: they add with sign; the sum is unit-free iff they cancel
+                tot = Fraction(0)
+                for i, d in enumerate(ds):
+                    if isinstance(d, tuple):
+                        tot += d[1] if (kind == z3.Z3_OP_ADD or i == 0) else -d[1]
+                    elif d not in (ANY, Fraction(0)):
+                        self.violations.append(("sum of a logarithm and a dimensioned quantity", _short(t), []))
+                return Fraction(0) if tot == 0 else ("L", tot)
+            return self._unify(ds, t, "+/-")
         if kind == z3.Z3_OP_UMINUS:
-            return self.deg(ch[0])
+            d = self.deg(ch[0])
+            return ("L", -d[1]) if isinstance(d, tuple) else d
         if kind == z3.Z3_OP_MUL:
             ds = [self.deg(c) for c in ch]
             if any(_num_is_zero(c) for c in ch):
                 return ANY
+            if any(isinstance(d, tuple) for d in ds):
+                # a logarithm with a non-cancelled additive degree used as a factor: c * log(x) with c a unit-free number keeps the additive form
+                if sum(isinstance(d, tuple) for d in ds) == 1 and all(isinstance(d, tuple) or d in (ANY, Fraction(0)) for d in ds) and \
+                        all(z3.is_rational_value(c) for c, d in zip(ch, ds) if not isinstance(d, tuple)):
+                    k = Fraction(1)
+                    for c, d in zip(ch, ds):
+                        if not isinstance(d, tuple):
+                            k *= Fraction(c.numerator_as_long(), c.denominator_as_long())
+                    return ("L", k * next(d for d in ds if isinstance(d, tuple))[1])
+                self.violations.append(("logarithm of a dimensioned quantity used as a factor (its unit offset does not cancel)", _short(t), _literals(t)))
+                return Fraction(0)
             return sum((d for d in ds if d != ANY), Fraction(0)) if ANY not in ds else ANY
         if kind in (z3.Z3_OP_DIV, z3.Z3_OP_IDIV):
             a, b = self.deg(ch[0]), self.deg(ch[1])
             if a == ANY:
                 return ANY
             if b == ANY:
-                self.violations.append(("division by a literal zero", _short(t), []))
-                return ANY
+                return ANY  # x / 0: a documented singular point (Dipole at its own location); definedness is C15's business, not the unit's
             return a - b
         if kind == z3.Z3_OP_TO_REAL:
             return self.deg(ch[0])
@@ -129,7 +150,10 @@ class DimCheck:
             if name == "arctan2":
                 self._unify(ds, t, "arctan2 arguments")
                 return Fraction(0)
-            if name in ("cos", "sin", "tan", "arctan", "arctanh", "log", "exp"):
+            if name == "log":
+                # log(x) with deg x = d:  log(s^d x) = log x + d log s  — an ADDITIVE degree; differences of logs of equal degree are unit-free
+                return ANY if ds[0] == ANY else (Fraction(0) if ds[0] == 0 else ("L", ds[0]))
+            if name in ("cos", "sin", "tan", "arctan", "arctanh", "exp"):
                 if ds[0] not in (ANY, Fraction(0)):
                     self.violations.append((f"{name} of a dimensioned quantity (degree {ds[0]})", _short(t), _literals(t)))
                 return Fraction(0)
@@ -243,8 +267,8 @@ class LinCheck:
                 return "lin"
             return self._fail(t, "product of two excitation-dependent factors")
         if kind == z3.Z3_OP_DIV:
-            if cs[0] in ("lin", "zero") and cs[1] == "const":
-                return cs[0]
+            if cs[0] in ("lin", "zero") and cs[1] in ("const", "zero"):
+                return cs[0]  # division by a literal zero is a singular point (definedness, C15), not a linearity matter
             return self._fail(t, "division by an excitation-dependent term")
         if kind == z3.Z3_OP_ITE:
             if cs[0] != "bconst":
